@@ -10,7 +10,7 @@ from hypothesis.stateful import RuleBasedStateMachine, initialize, rule
 from pbt import strategies as S
 from pbt.common import Stats, Sub, Violation, guarded
 from pbt.model import norm_records, prefixes_of, uri_prefixes_of
-from pbt.sut import curies, deep_observation, dump_records, mk_converter, mk_record
+from pbt.sut import curies, deep_observation, dump_records, mk_converter, mk_converter_via, mk_record
 
 PROPERTY_ID = "C10"
 RULE = (
@@ -82,8 +82,11 @@ class Pool:
         self.items: list[dict] = []
         self.ops: list[dict] = []
         self.flags: set[str] = set()
-        for s in specs:
-            self._add(mk_converter(s), parents=[], inherited=set())
+        for k, s in enumerate(specs):
+            # the initial converters come into being in different ways too (records with unset / explicit synonym lists,
+            # grown by merges, chained): only the first is always built at once
+            mode = ["at-once", "incremental", "split-merge", "chain"][(k + len(s["records"])) % 4] if k else "at-once"
+            self._add(mk_converter_via(s, mode), parents=[], inherited=set())
 
     def _add(self, conv, parents, inherited):
         recs = dump_records(conv)
